@@ -132,6 +132,9 @@ def run(ctx: Ctx) -> None:
     pts, _ = wirecheck.validate(ctx, 100 if thorough else 12)
     ctx.notes.update(wire_points_tlc_vs_refimpl=pts, programs=14, disagreements_checked=pts)
     c04.execute(ctx, with_ref=True, prop_filter=lambda w: w.startswith("ref-"))
+    c04._init()
+    from . import reenc
+    ctx.evaluations += reenc.run(ctx, "C08")        # tokens produced by re-used / re-encrypted objects, judged by refimpl (JweReuse.tla)
     pairs = []
     i = 0
     for a in ALL_ALGS:
@@ -172,5 +175,9 @@ def run(ctx: Ctx) -> None:
 
 
 def replay(ctx: Ctx, rec: dict) -> None:
+    if rec.get("reuse"):
+        from . import reenc
+        c04._init()
+        return reenc.replay(ctx, rec)
     print(json.dumps(rec, indent=1)[:2000])
     print("re-run ./check C08 to re-evaluate (cases are regenerated from the seed)")
